@@ -6,6 +6,8 @@ import (
 	"strings"
 	"time"
 
+	"golang.org/x/sys/unix"
+
 	"rcproxy/core"
 	"rcproxy/core/codec"
 )
@@ -15,9 +17,10 @@ import (
 // the real event loop - against Model/PoolBan.lean. Dials can FAIL here (SimEnv.dialFail), which the sim view
 // never does. One slot range: pool 0 is its master, pool 1 (rep=1) its only replica.
 //
-//	pool m=<maxActive> rep=<0|1> | g <p> ; l <c> ; d <p> <0|1> ; R <p> ; C <p> ; S <p> <0|1> ; r ; w
+//	pool m=<maxActive> rep=<0|1> | g <p> ; l <c> ; v <c> ; d <p> <0|1> ; R <p> ; C <p> ; S <p> <0|1> ; r ; w
 //
-// g = Pool.Get on pool p, l = the peer of connection c goes away, d = dialling pool p's node fails (0) / works (1)
+// g = Pool.Get on pool p, l = the peer of connection c goes away (EOF delivered), v = it goes away silently (the
+// proxy finds out when it writes), d = dialling pool p's node fails (0) / works (1)
 // from now on, R = Release, C = Close, S = SetIsSlave, r / w = a client GET / SET through the proxy.
 // Output per op: the result and per pool "count order flag banUnits closed slave".
 type poolView struct{}
@@ -57,9 +60,15 @@ func (poolView) Gen(r *Rng, i int) string {
 		case k < 11:
 			ops = append(ops, fmt.Sprintf("g %d", r.Intn(np)))
 			conns++
-		case k < 14:
+		case k < 13:
 			if conns > 0 {
 				ops = append(ops, fmt.Sprintf("l %d", r.Intn(conns)))
+			}
+		case k < 14:
+			if conns > 0 {
+				// the peer vanishes; the proxy finds out by writing the next request
+				ops = append(ops, fmt.Sprintf("v %d", r.Intn(conns)), []string{"r", "w"}[r.Intn(2)], []string{"r", "w"}[r.Intn(2)])
+				conns += 2
 			}
 		case k < 16:
 			ok := r.Intn(2)
@@ -194,6 +203,9 @@ func (pr *poolRun) request(isRead bool) string {
 	if got := pr.cl.recv[cb:]; len(got) > 0 {
 		// answered by the proxy itself
 		pr.tags["req:err"] = true
+		if strings.Contains(string(got), "closed") {
+			pr.tags["req:write-failed"] = true
+		}
 		if got[0] != '-' {
 			pr.fail("C15: a request that could not be forwarded was answered with %q, not an error", got)
 		}
@@ -360,6 +372,18 @@ func (v poolView) Exec(line string) (string, string, []string) {
 				_ = env.PeerClose(env.backends[c])
 			}
 			pr.settle()
+			res = "-"
+		case f[0] == "v" && len(f) == 2:
+			// the peer goes away and no EOF event reaches the proxy: it finds out when it writes
+			c := arg(1)
+			if c >= 0 && c < len(env.backends) && !env.backends[c].closed {
+				env.backends[c].drain()
+				unix.Close(env.backends[c].fd)
+				env.backends[c].closed = true
+				if env.backends[c].vc != nil && env.backends[c].vc.Opened() {
+					pr.tags["vanish:open"] = true
+				}
+			}
 			res = "-"
 		case f[0] == "d" && len(f) == 3:
 			p, ok := arg(1), arg(2)
